@@ -116,7 +116,15 @@ pub fn gen_case(rng: &mut Rng, thorough: bool) -> FaultCase {
     9..=11 => Op::Add {
       h: 0,
       id: rng.pick(&ids).clone(),
-      ver: if big { 5000 + BIG_VERSIONS } else { 5000 },
+      // (with long documents: a version whose document is well beyond 64 KiB)
+      ver: if big {
+        (5001..5200u64)
+          .map(|k| k + BIG_VERSIONS)
+          .find(|v| serde_json::to_string(&make_doc(cfg.profile, "zz", *v).fields).map(|s| s.len()).unwrap_or(0) > 80_000)
+          .unwrap_or(5000 + BIG_VERSIONS)
+      } else {
+        5000
+      },
     },
     12..=13 => Op::Delete {
       h: 0,
